@@ -81,9 +81,9 @@ theorem removeIds_effect {s0 : Store} (c : Nat) (mode : Option Mode) :
       -- the state after the repair writes, in each of the three modes
       have hmid : ∃ t : St, Good s0 t ∧ (∀ w k v, t.store.has w k v ↔ s.store.has w k v) ∧
           (∀ j, t.store.rec? j = s.store.rec? j) ∧
-          flushPins (repairIdx (setDirty s) c mode id) = t := by
+          setClean (repairIdx (setDirty s) c mode id) = t := by
         refine ⟨_, ?_, ?_, ?_, rfl⟩
-        · unfold flushPins repairIdx
+        · unfold repairIdx
           apply good_setClean
           cases mode with
           | none =>
@@ -101,14 +101,14 @@ theorem removeIds_effect {s0 : Store} (c : Nat) (mode : Option Mode) :
         · intro w k v
           cases mode with
           | none =>
-            simp only [flushPins, repairIdx, setClean_has, write_has, Store.has_apply, setDirty_has]
+            simp only [repairIdx, setClean_has, write_has, Store.has_apply, setDirty_has]
             constructor
             · exact fun hh => hh.1.1
             · intro hh
               refine ⟨⟨hh, ?_⟩, ?_⟩ <;> (rintro ⟨_, _, rfl⟩; exact hnone _ _ hh)
           | some md =>
             cases md <;>
-            · simp only [flushPins, repairIdx, setClean_has, write_has, Store.has_apply, setDirty_has]
+            · simp only [repairIdx, setClean_has, write_has, Store.has_apply, setDirty_has]
               constructor
               · exact fun hh => hh.1
               · intro hh
@@ -116,8 +116,8 @@ theorem removeIds_effect {s0 : Store} (c : Nat) (mode : Option Mode) :
                 rintro ⟨_, _, rfl⟩; exact hnone _ _ hh
         · intro j
           cases mode with
-          | none => simp [flushPins, repairIdx, Store.rec_apply]
-          | some md => cases md <;> simp [flushPins, repairIdx, Store.rec_apply]
+          | none => simp [repairIdx, Store.rec_apply]
+          | some md => cases md <;> simp [repairIdx, Store.rec_apply]
       obtain ⟨t, gt, ht1, ht2, et⟩ := hmid
       rw [et]
       obtain ⟨e1, e2⟩ := ih t true gt (by
@@ -197,14 +197,14 @@ theorem pinRecursive_views {s0 : Store} {s : St} (h : Good s0 s) (c name : Nat) 
       exact Or.inr (by rw [(search_mode h.cons.1 .direct c id hid pp hp).1]))
   refine ⟨?_, ?_⟩
   · intro w k v
-    simp only [s', flushPins, setClean_has]
+    simp only [s', flushPins_has]
     rw [b1, a1, addPin_has]
     simp only [modeIdx]
     constructor
     · rintro ⟨⟨x, y⟩, z⟩; exact ⟨x, y, z⟩
     · rintro ⟨x, y, z⟩; exact ⟨⟨x, y⟩, z⟩
   · intro j
-    simp only [s', flushPins, setClean_rec]
+    simp only [s', flushPins_rec]
     rw [b2, a2, addPin_rec]
     by_cases h1 : j ∈ oldD <;> by_cases h2 : j ∈ oldR <;> simp [h1, h2]
 
@@ -232,11 +232,11 @@ theorem pinDirect_views {s0 : Store} {s : St} (h : Good s0 s) (c name : Nat) :
     exact Or.inr (by rw [(search_mode h.cons.1 .direct c id hid pp hp).1]))
   refine ⟨?_, ?_⟩
   · intro w k v
-    simp only [s', flushPins, setClean_has]
+    simp only [s', flushPins_has]
     rw [a1, addPin_has]
     simp only [modeIdx]
   · intro j
-    simp only [s', flushPins, setClean_rec]
+    simp only [s', flushPins_rec]
     rw [a2, addPin_rec]
 
 /-- the views after removePinsForCid(c, Any) -/
